@@ -90,6 +90,13 @@ def build(u):
     other = re.sub(r"impl\s+(SqlWriterValues|Write for SqlWriterValues|SqlWriter for SqlWriterValues|std::fmt::Display for SqlWriterValues)\s*\{.*?\n\}\n", "", u.src(PR), flags=re.S)
     if re.search(r"\.(counter|values)\b(?!\()", other.split("#[cfg(test)]")[0]):
         raise rl.Unsupported("src/prepare.rs touches SqlWriterValues.counter / .values outside its own impls")
+    # assumption of C01 / C02: a renderer never READS the writer (it only appends through the SqlWriter interface)
+    import glob, os
+    for fp in sorted(glob.glob(os.path.join(u.repo, "src", "backend", "**", "*.rs"), recursive=True)):
+        txt = open(fp).read()
+        m = re.search(r"\bsql\s*\.\s*(to_string|as_str|len|clone)\s*\(", txt)
+        if m:
+            raise rl.Unsupported("%s reads the writer (`sql.%s(..)`): renderers are assumed to be functions of (statement, builder) only" % (os.path.relpath(fp, u.repo), m.group(1)))
     u.type_item(PR, "struct", "SqlWriterValues", props=P, rules=[make_r_sub("R-vis", r"^(\s+)([a-z_]+: )", r"\1pub \2", flags=re.M)])
     u.type_item("src/query/select.rs", "struct", "SelectStatement", props=P, keep_fields=["limit", "offset"])
     u.type_item("src/query/update.rs", "struct", "UpdateStatement", props=P, keep_fields=["limit"])
